@@ -99,7 +99,9 @@ Wrap(path, leaf) ==
 
 Positions == {"field", "const", "return", "arg"}
 
-ContSpace == [fam : {"cont"}, path : CtorPaths, leaf : Leaves, at : Positions]
+\* arrays of 3 and 4 dimensions in every tier ("one Error per offending element": each inner array is one)
+DeepArrays == {[k \in 1..n |-> "array"] : n \in 3..4}
+ContSpace == [fam : {"cont"}, path : CtorPaths \cup DeepArrays \cup {<<"list">> \o d : d \in DeepArrays}, leaf : Leaves, at : Positions]
              \cup [fam : {"cont2"}, l1 : Leaves, l2 : Leaves, at : {"arg", "field"}]
 
 LeafCat(l) == IF l \in {"rawlist", "rawmap"} THEN "prim" ELSE l   \* raw containers need no context
